@@ -185,6 +185,14 @@ func genElement(rc *RC, n *int, depth int, g *c08Gen) string {
 	}
 	sb.WriteString(">")
 	kids := ch.Range("workload", 0, 3)
+	if depth == 0 && ch.Chance("workload", 1, 40) {
+		// a payload nested a few hundred levels deep, with text on every level: still one element of the stream
+		d := ch.Range("workload", 200, 600)
+		for i := 0; i < d; i++ {
+			fmt.Fprintf(&sb, "<d>t%d", i%10)
+		}
+		sb.WriteString(strings.Repeat("</d>", d))
+	}
 	for i := 0; i < kids; i++ {
 		switch k := ch.Int("workload", 12); {
 		case k < 4 && depth < 3:
